@@ -5,6 +5,10 @@ HERE = os.path.dirname(os.path.dirname(os.path.abspath(__file__)))
 ALL = ['C%02d' % i for i in range(1, 21)]
 
 CHECKS = {
+ 'C18': dict(cat='translation_validation', engine='gen+encode',
+   text='The real generator is built and run on a scratch copy of the current tree. Every wowm text it embeds (sections of the documentation pages linked from SUMMARY.md, doc comments of the generated Rust files) is parsed back with the independent wowm reader and compared with the source object at the file:line it cites: (a) syntax-tree equality (name, kind, opcode, base type, enumerators/values, member order, types, upcasts, array sizes, constants, conditions); (b) z3: per container of a supported version view and covered shape the encoder built from the documented text and the one built from the source produce the same bytes and validity predicate for all field values; (c) body tables: rows == members in order, sizes of fixed-size members == wire sizes; examples: annotated byte groups concatenate to a test vector of the source object, annotations follow definition order; every non-test source object is documented somewhere.',
+   note='Only (b) is a solver claim (bounded by the covered shapes, cap 4 quick / 24 thorough; pages in quick, pages + Rust comments in thorough); (a) and (c) are deterministic comparisons. By design of the doc printer containers with nested if statements have no body table and compressed examples show the decompressed payload: counted, not compared. Comments/descriptions/links are outside.',
+   technique='run of the real generator + re-parse of embedded wowm; z3 equivalence of the two encoders per container and shape', ref='DESIGN.md 4/C18'),
  'C10': dict(cat='translation_validation', engine='gen+encode',
    text='The real generator is built and run on a scratch copy of the current tree. (a) the emitted intermediate_representation.json is validated against the published JSON Typedef schema (deterministic validator written for this check). (b) a second front end builds the canonical encoder from the IR objects; per container (all login versions, three expansions, structs, messages, update-mask structs) and covered shape z3 decides that the IR-derived encoding (bytes and validity predicate, all field values symbolic) equals the one derived independently from the wowm text, with IR else-if chains matched to wowm branches by solver implication rather than syntax. (c) object inventories per version view (omitted/invented, both directions), kinds, opcodes, definer base types, enumerator names and values, declared member sequences and test vectors are compared as data.',
    note='Level: translation validation of the IR printer against an independent reading of the wowm (vf/wowm.py); (a) and (c) are deterministic comparisons, only (b) is a solver claim, bounded by the covered shapes (cap 6 quick / 40 thorough per container). Comments, display names, file positions, the sizes objects (C09) and the update-mask offset tables are outside the comparison. Containers with compressed arrays / UpdateMask / AddonArray members are compared by declared member sequence only.',
